@@ -1499,9 +1499,9 @@ package rtcp
 //@   safety[C09]
 //@   modifies *b
 //@   recv any
-//@   ensures[C09,C16,C15] header: b.XRHeader.BlockType == 1 && b.XRHeader.TypeSpecific == TypeSpecificField(b.T&0x0F)
+//@   ensures[C09,C16,C15,C03] header: b.XRHeader.BlockType == 1 && b.XRHeader.TypeSpecific == TypeSpecificField(b.T&0x0F)
 //@   ensures[C18] onlyheader: b.T == old(b.T) && b.SSRC == old(b.SSRC) && b.BeginSeq == old(b.BeginSeq) && b.EndSeq == old(b.EndSeq) && sameSlice(b.Chunks, old(b.Chunks))
-//@   ensures[C15] length: b.XRHeader.BlockLength == uint16((12 + 2*len(b.Chunks))/4 - 1)
+//@   ensures[C15,C03] length: b.XRHeader.BlockLength == uint16((12 + 2*len(b.Chunks))/4 - 1)
 
 //@ func (b *LossRLEReportBlock) unpackBlockHeader()
 //@   safety[C01]
@@ -1515,9 +1515,9 @@ package rtcp
 //@   safety[C09]
 //@   modifies *b
 //@   recv any
-//@   ensures[C09,C16,C15] header: b.XRHeader.BlockType == 2 && b.XRHeader.TypeSpecific == TypeSpecificField(b.T&0x0F)
+//@   ensures[C09,C16,C15,C03] header: b.XRHeader.BlockType == 2 && b.XRHeader.TypeSpecific == TypeSpecificField(b.T&0x0F)
 //@   ensures[C18] onlyheader: b.T == old(b.T) && b.SSRC == old(b.SSRC) && b.BeginSeq == old(b.BeginSeq) && b.EndSeq == old(b.EndSeq) && sameSlice(b.Chunks, old(b.Chunks))
-//@   ensures[C15] length: b.XRHeader.BlockLength == uint16((12 + 2*len(b.Chunks))/4 - 1)
+//@   ensures[C15,C03] length: b.XRHeader.BlockLength == uint16((12 + 2*len(b.Chunks))/4 - 1)
 
 //@ func (b *DuplicateRLEReportBlock) unpackBlockHeader()
 //@   safety[C01]
@@ -1531,9 +1531,9 @@ package rtcp
 //@   safety[C09]
 //@   modifies *b
 //@   recv any
-//@   ensures[C09,C16,C15] header: b.XRHeader.BlockType == 3 && b.XRHeader.TypeSpecific == TypeSpecificField(b.T&0x0F)
+//@   ensures[C09,C16,C15,C03] header: b.XRHeader.BlockType == 3 && b.XRHeader.TypeSpecific == TypeSpecificField(b.T&0x0F)
 //@   ensures[C18] onlyheader: b.T == old(b.T) && b.SSRC == old(b.SSRC) && b.BeginSeq == old(b.BeginSeq) && b.EndSeq == old(b.EndSeq) && sameSlice(b.ReceiptTime, old(b.ReceiptTime))
-//@   ensures[C15] length: b.XRHeader.BlockLength == uint16((12 + 4*len(b.ReceiptTime))/4 - 1)
+//@   ensures[C15,C03] length: b.XRHeader.BlockLength == uint16((12 + 4*len(b.ReceiptTime))/4 - 1)
 
 //@ func (b *PacketReceiptTimesReportBlock) unpackBlockHeader()
 //@   safety[C01]
@@ -1547,9 +1547,9 @@ package rtcp
 //@   safety[C09]
 //@   modifies *b
 //@   recv any
-//@   ensures[C09,C16,C15] header: b.XRHeader.BlockType == 6 && b.XRHeader.TypeSpecific == specStatSummaryBits(b.LossReports, b.DuplicateReports, b.JitterReports, b.TTLorHopLimit)
+//@   ensures[C09,C16,C15,C03] header: b.XRHeader.BlockType == 6 && b.XRHeader.TypeSpecific == specStatSummaryBits(b.LossReports, b.DuplicateReports, b.JitterReports, b.TTLorHopLimit)
 //@   ensures[C18] onlyheader: b.LossReports == old(b.LossReports) && b.DuplicateReports == old(b.DuplicateReports) && b.JitterReports == old(b.JitterReports) && b.TTLorHopLimit == old(b.TTLorHopLimit) && b.SSRC == old(b.SSRC) && b.LostPackets == old(b.LostPackets)
-//@   ensures[C15] length: b.XRHeader.BlockLength == 9
+//@   ensures[C15,C03] length: b.XRHeader.BlockLength == 9
 
 //@ func (b *StatisticsSummaryReportBlock) unpackBlockHeader()
 //@   safety[C01]
@@ -1563,28 +1563,28 @@ package rtcp
 //@   safety[C09]
 //@   modifies *b
 //@   recv any
-//@   ensures[C09,C15] header: b.XRHeader.BlockType == 4 && b.XRHeader.TypeSpecific == 0 && b.XRHeader.BlockLength == 2
+//@   ensures[C09,C15,C03] header: b.XRHeader.BlockType == 4 && b.XRHeader.TypeSpecific == 0 && b.XRHeader.BlockLength == 2
 //@   ensures[C18] onlyheader: b.NTPTimestamp == old(b.NTPTimestamp)
 
 //@ func (b *DLRRReportBlock) setupBlockHeader()
 //@   safety[C09]
 //@   modifies *b
 //@   recv any
-//@   ensures[C09,C15] header: b.XRHeader.BlockType == 5 && b.XRHeader.TypeSpecific == 0 && b.XRHeader.BlockLength == uint16((4 + 12*len(b.Reports))/4 - 1)
+//@   ensures[C09,C15,C03] header: b.XRHeader.BlockType == 5 && b.XRHeader.TypeSpecific == 0 && b.XRHeader.BlockLength == uint16((4 + 12*len(b.Reports))/4 - 1)
 //@   ensures[C18] onlyheader: sameSlice(b.Reports, old(b.Reports))
 
 //@ func (b *VoIPMetricsReportBlock) setupBlockHeader()
 //@   safety[C09]
 //@   modifies *b
 //@   recv any
-//@   ensures[C09,C15] header: b.XRHeader.BlockType == 7 && b.XRHeader.TypeSpecific == 0 && b.XRHeader.BlockLength == 8
+//@   ensures[C09,C15,C03] header: b.XRHeader.BlockType == 7 && b.XRHeader.TypeSpecific == 0 && b.XRHeader.BlockLength == 8
 //@   ensures[C18] onlyheader: b.SSRC == old(b.SSRC) && b.LossRate == old(b.LossRate) && b.JBAbsMax == old(b.JBAbsMax)
 
 //@ func (b *UnknownReportBlock) setupBlockHeader()
 //@   safety[C09]
 //@   modifies *b
 //@   recv any
-//@   ensures[C09,C15] header: b.XRHeader.BlockType == old(b.XRHeader.BlockType) && b.XRHeader.TypeSpecific == old(b.XRHeader.TypeSpecific) && b.XRHeader.BlockLength == uint16((4 + len(b.Bytes))/4 - 1)
+//@   ensures[C09,C15,C03] header: b.XRHeader.BlockType == old(b.XRHeader.BlockType) && b.XRHeader.TypeSpecific == old(b.XRHeader.TypeSpecific) && b.XRHeader.BlockLength == uint16((4 + len(b.Bytes))/4 - 1)
 //@   ensures[C18] onlyheader: sameSlice(b.Bytes, old(b.Bytes))
 
 //@ func (x *ExtendedReport) DestinationSSRC() (result []uint32)
